@@ -874,6 +874,67 @@ fn jobcheck_main(env: &mut Env<VS>, args: Vec<Field>) -> BFut<'_> {
     Box::pin(std::future::ready(BResult::new(st)))
 }
 
+/// `jobsout FILE LABEL` - checks the listing the `jobs` built-in has just
+/// written to FILE: job numbers unique; exactly one line marked `+` if there is
+/// a line at all, exactly one marked `-` if there are two or more; if a listed
+/// job is stopped the `+` one is, and with two or more stopped the `-` one too.
+fn jobsout_main(env: &mut Env<VS>, args: Vec<Field>) -> BFut<'_> {
+    let a = strs(&args);
+    let path = a.first().cloned().unwrap_or_default();
+    let label = a.get(1).cloned().unwrap_or_default();
+    let pid = env.system.getpid().0;
+    let text = {
+        let state = world_state();
+        let st = state.borrow();
+        st.file_system
+            .get(path)
+            .ok()
+            .and_then(|inode| match &inode.borrow().body {
+                yash_env::system::r#virtual::FileBody::Regular { content, .. } => Some(String::from_utf8_lossy(content).into_owned()),
+                _ => None,
+            })
+            .unwrap_or_default()
+    };
+    // `[N] M State...` (M is `+`, `-` or a blank)
+    let mut rows: Vec<(u32, char, bool)> = Vec::new();
+    for l in text.lines() {
+        let Some(rest) = l.strip_prefix('[') else { continue };
+        let Some((n, rest)) = rest.split_once("] ") else { continue };
+        let Ok(n) = n.parse::<u32>() else { continue };
+        let marker = rest.chars().next().unwrap_or(' ');
+        let stopped = rest.get(1..).is_some_and(|r| r.trim_start().starts_with("Stopped"));
+        rows.push((n, marker, stopped));
+    }
+    let mut problem: Option<String> = None;
+    let mut nums: Vec<u32> = rows.iter().map(|r| r.0).collect();
+    nums.sort();
+    nums.dedup();
+    let plus: Vec<&(u32, char, bool)> = rows.iter().filter(|r| r.1 == '+').collect();
+    let minus: Vec<&(u32, char, bool)> = rows.iter().filter(|r| r.1 == '-').collect();
+    let stopped = rows.iter().filter(|r| r.2).count();
+    if nums.len() != rows.len() {
+        problem = Some("a job number is listed twice".into());
+    } else if !rows.is_empty() && plus.len() != 1 {
+        problem = Some(format!("{} lines are marked `+` (current job), expected exactly one", plus.len()));
+    } else if rows.len() >= 2 && minus.len() != 1 {
+        problem = Some(format!("{} lines are marked `-` (previous job), expected exactly one for {} jobs", minus.len(), rows.len()));
+    } else if rows.len() == 1 && !minus.is_empty() {
+        problem = Some("the only job is marked `-`".into());
+    } else if stopped >= 1 && !plus[0].2 {
+        problem = Some("a stopped job is listed but the job marked `+` is not stopped".into());
+    } else if stopped >= 2 && !minus[0].2 {
+        problem = Some("two or more stopped jobs are listed but the job marked `-` is not stopped".into());
+    }
+    if let Some(ctl) = ctl() {
+        ctl.count("jobs_listings_checked");
+        if let Some(p) = problem {
+            ctl.record(pid, "jobcheck-fail", 0, 0, &format!("jobs-listing: {p} at {label}; listing: {:?}", text));
+        }
+    }
+    let st = env.exit_status;
+    Box::pin(std::future::ready(BResult::new(st)))
+}
+
 /// `selfstop` - the calling process stops itself (SIGSTOP); returns when it
 /// is continued.
 fn selfstop_main(env: &mut Env<VS>, _args: Vec<Field>) -> BFut<'_> {
@@ -915,6 +976,7 @@ pub fn virtual_probes() -> Vec<(&'static str, Builtin<VS>)> {
     v.push(("io", Builtin::new(Type::Mandatory, io_main)));
     v.push(("snap", Builtin::new(Type::Mandatory, snap_main)));
     v.push(("jobcheck", Builtin::new(Type::Mandatory, jobcheck_main)));
+    v.push(("jobsout", Builtin::new(Type::Mandatory, jobsout_main)));
     v.push(("selfstop", Builtin::new(Type::Mandatory, selfstop_main)));
     v.push(("contall", Builtin::new(Type::Mandatory, contall_main)));
     v
